@@ -17,7 +17,7 @@ PLAN = {
     "C19": ["K19b", "K19c", "L19"],
     "C11": ["K11a", "K11b", "L11"],
     "C12": ["K12a", "K12b", "K12d", "K12e"],
-    "C13": ["K12a", "K13a", "K13b", "K13c", "K14b"],
+    "C13": ["K08b", "K12a", "K13a", "K13b", "K13c", "K14b"],
     "C14": ["K14a", "K14b"],
     "C15": ["K04f", "K12e", "K14b", "L15", "L15b"],
     "C16": ["K04f", "K16"],
